@@ -78,10 +78,14 @@ func migrateLegacyTemplateAsString(template string, options *MigrateOptions) (st
 	for i, t := range tokens {
 		tokenType, token := t.tokenType, t.token
 
-		// text directly after this token
+		// text directly after this token, i.e. after any @("") which are removed (see below)
 		following := ""
-		if i+1 < len(tokens) && tokens[i+1].tokenType == excellent.BODY {
-			following = tokens[i+1].token
+		next := i + 1
+		for next < len(tokens) && tokens[next].tokenType == excellent.EXPRESSION && tokens[next].token == `""` {
+			next++
+		}
+		if next < len(tokens) && tokens[next].tokenType == excellent.BODY {
+			following = tokens[next].token
 		}
 
 		switch tokenType {
